@@ -8,7 +8,7 @@ CHECKS = {
  # id: (level, technique, text, note, design_ref, engine)
  "C01": ("exploration",
          "bounded-exhaustive enumeration of reference-encoded volumes (every record partition, metadata at every position) against the encoder's own radial list",
-         "Volumes are produced by an independent Archive II / type-31 encoder: every elevation word over {1,2,3} up to length 4/5, run-length patterns, EVERY partition of the message stream into bzip2 records (<= 8 messages), SAILS / 255 / 1..=255 sequences, a metadata frame of each kind at every position, moment subsets x gate counts x VOL placements, a 2,520-radial volume. File::scan must return exactly the encoder's radials (identity by unique timestamp, values via the reference conversion) in maximal equal-elevation runs and the first VOL block's VCP number.",
+         "Volumes are produced by an independent Archive II / type-31 encoder: every elevation word over {1,2,3} up to length 4/5, run-length patterns, EVERY partition of the message stream into bzip2 records (<= 8 messages), SAILS / 255 / 1..=255 sequences, a metadata frame of each kind at every position, moment subsets x gate counts x VOL placements, a 2,520-radial volume. the small cases again with the radial status decoupled from the elevation runs (all intermediate / all elevation-start / cycling through the six codes), File::scan must return exactly the encoder's radials (identity by unique timestamp, values via the reference conversion) in maximal equal-elevation runs and the first VOL block's VCP number.",
          "bzip2 encoder, reference layouts (DESIGN Appendix A); only well-formed volumes", "DESIGN.md §5 C01", "E3"),
  "C02": ("exploration",
          "product enumeration of type-31 block orders x pointer layouts x gates x word sizes x value plans, per-offset oracle",
@@ -16,7 +16,7 @@ CHECKS = {
          "independent offset tables; f32 compared by bit pattern", "DESIGN.md §5 C02", "E3"),
  "C03": ("exploration",
          "exhaustive enumeration of message streams over a kind alphabet and all type-code pairs; every truncation point; differential oracle",
-         "All streams of length 0..=5/6 over 9 message kinds (status, VCP, type 15, 3, 18, unknown 200, type-31 with 0/4/10 blocks), all 256x16/256x256 two-frame type-code pairs, 300-message streams, and every truncation point of a base set. Message i must equal the same bytes decoded alone, counts and order preserved, undecoded types are placeholders occupying one frame, cuts inside a body are errors and shorter-than-header tails are ignored.",
+         "All streams of length 0..=5/6 over 9 message kinds (status, VCP, type 15, 3, 18, unknown 200, type-31 with 0/4/10 blocks), all 256x16/256x256 two-frame type-code pairs, 300-message streams, every truncation point of a base set, and a context sweep in which the first message has one body halfword or - for every fixed-length kind - its header size / segment-count / segment-number field (incl. the variable-length marker with five 32-bit sizes) varied. Message i must equal the same bytes decoded alone, counts and order preserved, undecoded types are placeholders occupying one frame, cuts inside a body are errors and shorter-than-header tails are ignored.",
          "reference framing (2432-byte frames, contiguous type-31)", "DESIGN.md §5 C03", "E3"),
  "C04": ("exploration",
          "deviation-bounded mutation (<=2 byte deviations from valid streams), every prefix, field-extreme products and an exhaustive small scope of byte strings, under a counting allocator, fuel reader and watchdog",
@@ -61,7 +61,7 @@ CHECKS = {
          "segment numbering checked as consecutive", "DESIGN.md §5 C13", "E3"),
  "C14": ("model_checking",
          "explicit-state search (stateright BFS) over message words; invariant runs the real summarize::messages in every state against a reference grouper",
-         "Words over {R1, R1v, R2, S, V, O3, O18} to depth 6/7, {R1,R2} to depth 12/14 and a 4/5-symbol alphabet to depth 7/8, each symbol a real decoded message stamped with its position; tiling, count=span, maximal-run rule, continuation flags, data-type counts, first/last azimuth and time, collection-time range, VCP set and a split differential are checked in every state.",
+         "Words over {R1, R1v, R2, S, V, O3, O18} to depth 6/7, {R1,R2} to depth 12/14 and a 4/5-symbol alphabet to depth 7/8, each symbol a real decoded message stamped with its position; tiling, count=span, maximal-run rule, continuation flags, data-type counts, first/last azimuth and time, collection-time range, VCP set and a split differential are checked in every state; every word over {R1,R2,S} to length 5/6 again with the radial status of <= 2 radials set to each (pair) of the six codes and other free header fields varied (the summary must not depend on them).",
          "coded fields within documented domains; data-type names are the public HashMap keys", "DESIGN.md §5 C14", "E2"),
  "C15": ("model_checking",
          "exhaustive enumeration of all 998,002 bucket shapes through the real search (hook) plus simulator runs of get_latest_volume with probe-trace conformance",
@@ -73,7 +73,7 @@ CHECKS = {
          "independent civil-date arithmetic; debug-assertions off", "DESIGN.md §5 C16", "E2/E3"),
  "C19": ("model_checking",
          "explicit-state search (stateright BFS) over histories of recorded timings; exhaustive cut lists x sequences",
-         "Every cut list over {half-degree, other} up to length 10/12 x sequences up to 100/200 against a cumulative-sum model; estimate defaults over waveform x channel x previous sequence 0..=60; every history over 3 samples x 1 key to depth 11/12 (and 2-3 keys shallower): in every state the real estimate must equal previous + mean(last 10) + (mean attempts - 1) s within 1 s and get_statistics must agree.",
+         "Every cut list over {half-degree, other} up to length 10/12 x sequences up to 100/200 against a cumulative-sum model; estimate defaults over waveform x channel x previous sequence 0..=60; every history over 3 samples x 1 key to depth 11/12 (and 2-3 keys shallower): in every state the real estimate must equal previous + mean(last 10) + (mean attempts - 1) s within 1 s and get_statistics must agree; every ordered pair of the 72 distinct characteristics (3 chunk types x 6 waveforms x 4 channel configurations) must keep separate windows.",
          "1 s tolerance for history-based estimates", "DESIGN.md §5 C19", "E2/E3"),
 }
 
@@ -81,11 +81,11 @@ CHECKS = {
 CHECKS.update({
  "C17": ("fault_enumeration",
          "fault enumeration: bucket contents x request x every answer of a response menu, against a loopback S3 simulator",
-         "Both listing entry points and both download entry points run against an in-process S3 simulator: all buckets of 0..=2 (3) objects over a 10-name alphabet (XML specials, non-ASCII, 900 chars, nested) x 4 sizes (to 2^64-1) x timestamp forms plus near-miss keys and 999/1000/1001-object buckets, x response menu {normal, IsTruncated, three unparsable sizes, garbled XML, two element orders, empty body}; downloads over names x sizes x 8 HTTP statuses x Last-Modified forms x short body. Listings must equal the reference list, truncated archive listings and bad sizes must be errors, the request log must show exactly the expected key, 200 must return identical bytes/time/identifier, 404 the not-found error, other statuses an error, never a panic.",
+         "Both listing entry points and both download entry points run against an in-process S3 simulator: all buckets of 0..=2 (3) objects over a 10-name alphabet (XML specials, non-ASCII, 900 chars, nested) x 4 sizes (to 2^64-1) x timestamp forms plus near-miss keys and 999/1000/1001-object buckets, x response menu {normal, IsTruncated, three unparsable sizes, garbled XML, two element orders, empty body}; downloads over names x sizes x 8 HTTP statuses x Last-Modified forms x short body, and chunk downloads again with an identifier that already carries a time (equal / earlier / later than the object's). Listings must equal the reference list, truncated archive listings and bad sizes must be errors, the request log must show exactly the expected key, 200 must return identical bytes/time/identifier, 404 the not-found error, other statuses an error, never a panic.",
          "verif-hooks endpoint override; simulator's HTTP/XML framing and bucket model", "DESIGN.md §5 C17", "E1/E4"),
  "C18": ("model_checking",
          "stateless model checking of the implementation: deviation-bounded DFS over environment answers (choice sequences) with the real poll_chunks re-executed for every schedule on a paused clock",
-         "The real poll_chunks runs against the S3 simulator with a scripted uploader. Roots cross 30 start positions (volumes 1/500/997/998/999 x sequences 1/2/30/53/54/55) with stop signals before polling and while serving request #k, consumer drops after k deliveries, upload times around now, next-volume listings of 1-3 chunks, a long horizon and discovery faults; under each root ALL executions with <= 1 (quick) / 2-3 (thorough) deviations are enumerated, every post-discovery request being a choice point (present / 404 once / 500 once / garbled / never). Each execution is judged against the uploaded-object model: first delivery, successor relation incl. 999->1, no gap/repeat, byte-identical payloads and labels, <= 1 delivery after stop and Ok, Err exactly on budget exhaustion or consumer gone, no request outside {next chunk, next volume listing}; reachability obligations are enforced.",
+         "The real poll_chunks runs against the S3 simulator with a scripted uploader. Roots cross 30 start positions (volumes 1/500/997/998/999 x sequences 1/2/30/53/54/55) with stop signals before polling and while serving request #k, consumer drops after k deliveries, upload times around now, next-volume listings of 1-3 chunks, a long horizon and discovery faults; under each root ALL executions with <= 1 (quick) / 2-3 (thorough) deviations are enumerated, every post-discovery request being a choice point (present / 404 once / 500 once / transfer cut half-way once / garbled / never). Each execution is judged against the uploaded-object model: first delivery, successor relation incl. 999->1, no gap/repeat, byte-identical payloads and labels, <= 1 delivery after stop and Ok, Err exactly on budget exhaustion or consumer gone, no request outside {next chunk, next volume listing}; reachability obligations are enforced.",
          "simulator framing, tokio paused clock, schedule reduction argument (stop flag read at one point per iteration)", "DESIGN.md §5 C18", "E1/E4"),
  "C20": ("exploration",
          "exhaustive enumeration of the feature powerset x build profile with cargo build (library) / cargo check (examples) as oracle",
